@@ -106,6 +106,30 @@ def check(chk: Check) -> None:
     chk.require(not loop, R1, q + ' :: loop', fi.where, '; '.join(sorted(set(loop))) or 'asks self.lex for tokens until None')
     chk.require(not filt, R1, q + ' :: filter', fi.where, '; '.join(sorted(set(filt))) or 'yields exactly the tokens with type == %r' % IDENT)
     chk.require(not val, R1, q + ' :: value', fi.where, '; '.join(sorted(set(val))) or 'yields t.value unchanged')
+    # the names listed are the names of the text that is evaluated: eval hands the parser its source argument itself (white
+    # space trimmed at the ends at most) - a normalised / rewritten text can spell its names differently from the text that
+    # list_names was asked about
+    qe = PARSER + '.eval'
+    fie = F.func(qe)
+    selfe = ('param', om.self_param(F, qe))
+    src_e = ('param', [a.arg for a in fie.node.args.args][1])
+    text_problems = []
+    n_parse = 0
+    for p in SymExec(F, fie).run():
+        for e in p.events:
+            if e.kind != 'call' or e.resolved != PARSER + '.parse' or e.depth():
+                continue
+            n_parse += 1
+            kw = dict(freeze(e.kwargs))
+            a = kw.get('expr', freeze(e.args)[0] if e.args else None)
+            if isinstance(a, tuple) and a[:1] == ('call',) and isinstance(a[2], tuple) and a[2][:1] == ('attr',) and a[2][2] in ('rstrip', 'strip', 'lstrip') \
+                    and not a[3] and not a[4]:
+                a = a[2][1]
+            if a != src_e:
+                text_problems.append('eval parses %s, not its source argument: the identifiers of that text need not be spelled like '
+                                     'the ones list_names reports for the source' % (show(a) if a is not None else 'nothing'))
+    chk.require(not text_problems and n_parse, R1, qe + ' :: text', fie.where,
+                '; '.join(sorted(set(text_problems))) or 'parses the source argument itself (trailing white space trimmed)')
 
     # --------------------------------------------------------------------- R2
     rm = lm.rules[IDENT]
